@@ -109,6 +109,9 @@ class Observer:
             self.counters["case_watchdog"] += 1
             self.watchdogs.append(f"case {self._index} exceeded the per-case wall-clock watchdog")
             return
+        if type(exc_info[1]).__name__ == "ContractBroken":
+            self.violation("contract_broken", message=str(exc_info[1])[:1500], traceback=tb[-1200:])
+            return
         if in_ropt and (innermost_ropt or not last.startswith(env.VERIF_DIR)):
             self.violation("unexpected_exception", exception=repr(exc_info[1]), where=f"{frames[-1].filename}:{frames[-1].lineno}",
                            traceback=tb[-1500:])
@@ -155,6 +158,18 @@ def run_stream(mod, obs: Observer, tier: str, seed: int, shard: int, nshards: in
     case_timeout = int(getattr(mod, "CASE_TIMEOUT", 120))
     signal.signal(signal.SIGALRM, _alarm)
     t0 = time.time()
+    groups = getattr(mod, "CONTRACT_GROUPS", None)
+    contracts = None
+    if groups:
+        try:
+            from . import contracts  # noqa: PLC0415
+
+            rebound = contracts.install(groups)
+            for name, n in rebound.items():
+                obs.count("contract_refs_rebound." + name, n)
+        except ImportError:
+            contracts = None
+            obs.count("contract_layer_unavailable")
     setup = getattr(mod, "worker_setup", None)
     if setup is not None:
         setup(obs)
@@ -174,6 +189,9 @@ def run_stream(mod, obs: Observer, tier: str, seed: int, shard: int, nshards: in
         finally:
             signal.alarm(0)
         obs.end()
+    if contracts is not None:
+        for name, n in contracts.COUNTS.items():
+            obs.count("contract_evaluations." + name, n)
     teardown = getattr(mod, "worker_teardown", None)
     if teardown is not None:
         teardown(obs)
